@@ -7,6 +7,7 @@ use crate::ProgramRef;
 use deno_ast::swc::ast::VarDecl;
 use deno_ast::swc::ecma_visit::noop_visit_type;
 use deno_ast::swc::ecma_visit::Visit;
+use deno_ast::swc::ecma_visit::VisitWith;
 use deno_ast::SourceRangedForSpanned;
 use derive_more::Display;
 
@@ -61,6 +62,7 @@ impl Visit for SingleVarDeclaratorVisitor<'_, '_> {
         SingleVarDeclaratorMessage::Unexpected,
       );
     }
+    var_decl.visit_children_with(self);
   }
 }
 
